@@ -3,6 +3,27 @@ pkg = test package under harness/, level = evidence level, jobs[tier] = list of
 {part, shards, checks (rapid cases per shard), journal, timeout, scale}."""
 
 CHECKS = {
+    'C10': dict(pkg='c10', level='exploration',
+        technique='property-based testing with an instrumented channel wrapper (entry/exit counters for Send/Recv/Close, yields inside the operations) under the union of the server- and client-side scenario generators, with equal pinned hook delays so that would-be concurrent senders become runnable at the same instant; every record passed to Send validated by an independent JSON-RPC message validator',
+        level_text='All server-side workloads (concurrent calls, batches, pushes, callbacks, cancellations, stop/close, restarts) and client-side workloads (concurrent calls, batches, callback replies, Close, faults) run on channels wrapped by an overlap detector: never two Sends, never two Recvs, never Send overlapping Close, Close exactly once per Start/NewClient, every record a whole JSON-RPC message. Exploration.',
+        level_note='Overlap can only be observed where the wrapper yields and the generator makes two senders runnable together (equal hook delays, bursts); trusts harness/sim/chan.go and the message validator in harness/oracle/client.go.',
+        jobs=dict(
+        quick=[dict(part='server', shards=3, checks=1500, journal=True), dict(part='client', shards=3, checks=1500, journal=True)],
+        thorough=[dict(part='server', shards=8, checks=40000, journal=True, timeout=3000), dict(part='client', shards=6, checks=40000, journal=True, timeout=3000)])),
+    'C05': dict(pkg='c05', level='fault_enumeration',
+        technique='stateful property-based testing plus fault enumeration on the Client: rapid-generated scripts of operations / replies / context ends / Close / peer EOF / malformed records in a testing/synctest bubble with generated hook delays; every channel operation of small scripts re-run with each fault kind; oracle = exactly-once return with an outcome admissible for the events that preceded it, hook counts, leak detection by the bubble',
+        level_text='Every started Call/CallResult/Batch/Notify must return exactly once with an outcome admissible for what happened first (reply / context error / stop), nothing may be transmitted after the client stopped, OnCancel runs once per transmitted request that ended without a reply and never for an answered one, OnStop once with the first cause, Close only after all OnCallback handlers returned, and the bubble must end with no goroutine left. For small scripts a fault is injected at EVERY Recv and Send index of the client channel. Fault enumeration over generated scripts; not a proof.',
+        level_note='Trusts harness/oracle/client.go, the E4 wrapper and testing/synctest; raced events are judged by admissible sets (DESIGN section 7); assumes the peer closes its end after seeing EOF.',
+        jobs=dict(
+        quick=[dict(part='scenarios', shards=4, checks=1500, journal=True), dict(part='faults', shards=4, checks=40, journal=True)],
+        thorough=[dict(part='scenarios', shards=10, checks=30000, journal=True, timeout=3000), dict(part='faults', shards=10, checks=800, journal=True, timeout=3000)])),
+    'C04': dict(pkg='c04', level='exploration',
+        technique='model-based property testing of the Client against a raw scripted peer in a testing/synctest bubble: every permutation x partition x single hostile insertion of the reply stream enumerated for 2-3 outstanding replies, rapid-generated reply plans beyond; oracle = each returned value must be the first reply the peer sent for that request id text',
+        level_text='Concurrent Call/CallResult/Batch operations are answered by a scripted raw peer from a reply plan (any order, grouping into arrays, duplicates with different payloads, unknown/null ids, malformed members, id-variant members, interleaved server notifications and calls). Every returned value must be the payload sent for that id (payloads embed the operation, so cross-delivery is visible), each reply is consumed at most once, Batch keeps spec order, ids in flight are distinct, no goroutine is left. Exhaustive for the stated small plans, exploration beyond.',
+        level_note='Trusts harness/oracle/client.go and the scripted peer; outcomes of members with both/neither result and error or malformed members bearing a pending id are dont-care.',
+        jobs=dict(
+        quick=[dict(part='plans', shards=4, journal=True), dict(part='random', shards=3, checks=1500, journal=True)],
+        thorough=[dict(part='plans', shards=6, journal=True), dict(part='random', shards=12, checks=30000, journal=True, timeout=3000)])),
     'C09': dict(pkg='c09', level='exploration',
         technique='stateful property-based testing: rapid-generated push workloads (Notify/Callback from outside and from parked handlers, scripted peer replies in any order / duplicated / late / unsolicited, fake-clock deadlines, Stop) in a testing/synctest bubble; history invariants over push returns, wire requests and peer replies plus the server reference model for anything the server emits',
         level_text='Generated push workloads against a real server with a raw scripted peer: every Callback must return exactly once with the first reply sent for its id (or an admissible raced one), its context error, or an error after stop, never another payload; each push is transmitted exactly once with ids unique among outstanding callbacks; unsolicited, late and duplicate replies complete nothing and provoke no outbound message; replies are delivered while dispatch is parked behind a notification. Exploration.',
